@@ -246,6 +246,13 @@ func c21Run(e *Env, p *c21Plan) {
 		}
 		if err == nil {
 			e.Nontrivial = true
+			if https && p.Verify {
+				e.Probe("https-ok-verified")
+			} else if https {
+				e.Probe("https-ok")
+			}
+		} else if https {
+			e.Probe("https-error")
 		}
 	}
 	if p.Concurrent {
